@@ -246,6 +246,11 @@ impl<'a> SimpleGlyph<'a> {
                 break;
             }
         }
+        if i != n_points {
+            // The glyph data ended inside the flags array. The remaining
+            // entries of `flags` were not written, so don't interpret them.
+            return Err(ReadError::OutOfBounds);
+        }
         let mut cursor = FontData::new(self.glyph_data()).cursor();
         cursor.advance_by(read_flags_bytes);
         let mut x = 0i32;
